@@ -78,16 +78,16 @@ theorem step_strQ_quote (k : StrKind) (acc : Str) : step (.strQ k acc) '\'' = ([
 
 theorem step_top_quote : step .top '\'' = ([], .str .plain []) := by decide
 
-theorem step_top_dquote : step .top '"' = ([], .qid []) := by decide
+theorem step_top_dquote : step .top '"' = ([], .qid false []) := by decide
 
 theorem step_qid (acc : Str) (c : Char) (h0 : c ≠ NUL) (h1 : c ≠ '"') :
-    step (.qid acc) c = ([], .qid (c :: acc)) := by
+    step (.qid false acc) c = ([], .qid false (c :: acc)) := by
   rw [step_ne_nul _ _ h0]; simp [stepN, h1]
 
-theorem step_qid_dquote (acc : Str) : step (.qid acc) '"' = ([], .qidQ acc) := by
+theorem step_qid_dquote (acc : Str) : step (.qid false acc) '"' = ([], .qidQ false acc) := by
   rw [step_ne_nul _ _ dquote_ne_nul]; simp [stepN]
 
-theorem step_qidQ_dquote (acc : Str) : step (.qidQ acc) '"' = ([], .qid ('"' :: acc)) := by
+theorem step_qidQ_dquote (acc : Str) : step (.qidQ false acc) '"' = ([], .qid false ('"' :: acc)) := by
   rw [step_ne_nul _ _ dquote_ne_nul]; simp [stepN]
 
 /-! ## string constants written by `pgQuote` -/
@@ -214,7 +214,7 @@ def contDQ : Str → Bool
   | _ => false
 
 theorem qid_body (s acc rest : Str) (h : NUL ∉ s) :
-    go (.qid acc) (escDQ s ++ rest) = go (.qid (s.reverse ++ acc)) rest := by
+    go (.qid false acc) (escDQ s ++ rest) = go (.qid false (s.reverse ++ acc)) rest := by
   induction s generalizing acc with
   | nil => simp [escDQ]
   | cons c cs ih =>
@@ -232,18 +232,18 @@ theorem qid_body (s acc rest : Str) (h : NUL ∉ s) :
       rw [ih _ hcs]; simp
 
 theorem qidQ_end (acc r : Str) (h : contDQ r = false) :
-    go (.qidQ acc) r = .qident acc.reverse :: go .top r := by
+    go (.qidQ false acc) r = .qident acc.reverse :: go .top r := by
   cases r with
-  | nil => simp [go_nil, finish]
+  | nil => simp [go_nil, finish, qidTok]
   | cons c cs =>
     by_cases hq : c = '"'
     · subst hq; simp [contDQ] at h
     · by_cases h0 : c = NUL
       · subst h0
         rw [go_cons, go_top_nul]
-        simp [step, stepNul, finish]
+        simp [step, stepNul, finish, qidTok]
       · rw [go_cons, step_ne_nul _ _ h0, go_top_cons c cs h0]
-        simp [stepN, hq, emitThen]
+        simp [stepN, hq, emitThen, qidTok]
 
 theorem lex_qQuote (s r : Str) (h : NUL ∉ s) (hr : contDQ r = false) :
     lex (qQuote s ++ r) = .qident s :: lex r := by
@@ -264,10 +264,11 @@ theorem qident_in_context (pre s post : Str) (hpre : (run .top pre).2 = .top) (h
 
 /-! ## bare identifiers -/
 
-/-- what may follow a bare identifier without being absorbed into it or turning it into a string prefix -/
+/-- what may follow a bare identifier without being absorbed into it or turning it into a string prefix
+(`e'…'`, `b'…'`, `x'…'`, `n'…'`, `u&'…'`, `u&"…"`) -/
 def identFollow : Str → Bool
   | [] => true
-  | c :: _ => !isIdentCont c && c != '\''
+  | c :: _ => !isIdentCont c && c != '\'' && c != '&'
 
 theorem identCont_ne_nul (c : Char) (h : isIdentCont c = true) : c ≠ NUL := by
   intro e; subst e; revert h; decide
@@ -289,13 +290,13 @@ theorem word_end (acc r : Str) (h : identFollow r = true) :
   cases r with
   | nil => simp [go_nil, finish]
   | cons c cs =>
-    have hc : isIdentCont c = false ∧ c ≠ '\'' := by simpa [identFollow] using h
+    have hc : (isIdentCont c = false ∧ c ≠ '\'') ∧ c ≠ '&' := by simpa [identFollow] using h
     by_cases h0 : c = NUL
     · subst h0
       rw [go_cons, go_top_nul]
       simp [step, stepNul, finish]
     · rw [go_cons, step_ne_nul _ _ h0, go_top_cons c cs h0]
-      simp [stepN, stepWord, hc.1, hc.2, emitThen]
+      simp [stepN, stepWord, hc.1.1, hc.1.2, hc.2, emitThen]
 
 theorem topStep_ascii_table :
     ∀ n : Fin 128, isIdentStart (Char.ofNat n) = true → topStep (Char.ofNat n) = ([], .word [Char.ofNat n]) := by
